@@ -229,14 +229,112 @@ def rule_enable(ctx):
 
 # kind/name dispatch table
 # the bytes of a client are turned into text before any per-message containment: a codec that can fail ends the connection
-IMPORTS = [('C02', 'C02.DECODE'), ('C06', 'C06.KEY'), ('C11', 'C11.RECOVER'), ('C04', 'C04.ACC'), ('C04', 'C04.DEV'), ('C02', 'C02.DISCARD'), ('C02', 'C02.CONSUME'), ('C11', 'C11.NOGROW')]
+IMPORTS = [('C02', 'C02.DECODE'), ('C06', 'C06.KEY'), ('C11', 'C11.RECOVER'), ('C04', 'C04.ACC'), ('C04', 'C04.DEV'), ('C02', 'C02.DISCARD'), ('C02', 'C02.CONSUME'), ('C11', 'C11.NOGROW'), ('C15', 'C15.MIRROR')]  # C15.MIRROR (its C15.SURVIVE part): the snooping clients inside the server process every relayed message without raising into the router
 
 def rule_regex(ctx):
     from . import bufferrules as B
     B.check_regex(ctx, "C12.REGEX", ("indi.device", "indi.routing", "indi.message"), "the thread that serves the connection is stuck on one client value and stops serving")
 
 
+_EXTREME_NUMBERS = [
+    ("an integer of 400 digits", "9" * 400),
+    ("a negative integer of 400 digits", "-" + "9" * 400),
+    ("a decimal of 400 digits before the point", "9" * 400 + ".5"),
+    ("an ordinary number", "12.5"),
+]
+
+
+def rule_poison(ctx):
+    """A number text that is well-formed by the protocol's syntax but beyond what the driver can render again (an integer
+    of hundreds of digits: str_to_num yields an arbitrary-precision int, '%f' % it overflows; a decimal of that size
+    becomes inf) must be refused like any other value that cannot be applied.  If it is stored, the property is
+    poisoned: every later rendering of it raises out of message handling (or announces text no peer can parse), and a
+    whole-device getProperties stops at it.  Decided by constant evaluation on a driver built by the real machinery:
+    the hostile newNumberVector, then a valid getProperties on the same driver."""
+    import re as _re
+    from ..absint import Frame
+    from .driverworld import build_drivers
+    from .. import protocol_tables as T
+    p = ctx.p
+    drv_cls = p.cls("indi.device.driver.Driver")
+    f = drv_cls.find_method("message_from_client")
+    newn = p.cls(f"{MSG}.news.NewNumberVector")
+    onen = p.cls(f"{MSG}.one_parts.OneNumber")
+    getp = p.cls(f"{MSG}.get_properties.GetProperties")
+    grammar = _re.compile(T.NUM_PERMISSIVE_REFERENCE + r"\Z")
+
+    def pol(fi, node):
+        m = fi.module.name
+        return (m.startswith("indi.device.") or m.startswith("indi.message")) and fi.name not in ("raise_event", "attach_event_handlers")
+
+    n = 0
+    bad = False
+    for label, text in _EXTREME_NUMBERS:
+        n += 1
+        res = {}
+
+        def run(it: Interp, text=text, res=res):
+            drivers = build_drivers(it, p, router=Obj(None, label="<router>"))
+            drv = drivers["DEVA"]
+            it.opts["inline"] = pol
+            it.opts["instantiate"] = lambda ci: ci.module.name.startswith(("indi.message", "indi.device."))
+            fr = Frame(None, newn.module, {})
+            part = it.apply(Cls(onen), [], {"name": Const("A"), "value": Const(text)}, [], None, fr, False)
+            msg = it.apply(Cls(newn), [], {"device": Const("DEVA"), "name": Const("V2"), "children": Lst([part])}, [], None, fr, False)
+            del it.events[:]
+            res["stage"] = "the hostile message"
+            it.run_function(Fn(f, drv), [msg], {})
+            res["stage"] = "a getProperties sent afterwards"
+            gp = it.apply(Cls(getp), [], {"version": Const("1.7"), "device": Const("DEVA")}, [], None, fr, False)
+            k = len(it.events)
+            it.run_function(Fn(f, drv), [gp], {})
+            res["defs"] = [e for e in it.events[k:] if e.kind == "call" and is_call(e.data["term"], method="process_message")]
+            res["stage"] = "done"
+            return Const(None)
+
+        try:
+            paths = explore(p, run, {"inline": pol, "max_depth": 16, "call_may_raise": None})
+        except Undecided as u:
+            ctx.undecided("C12.POISON", f"{f.short}[{label}]", f"not decided by constant evaluation: {u}", fi=f)
+            bad = True
+            continue
+        ctx.paths_enumerated += len(paths)
+        inst = f"{f.short}[{label}]"
+        if len(paths) != 1:
+            ctx.undecided("C12.POISON", inst, f"not decided by constant evaluation ({len(paths)} paths)", fi=f)
+            bad = True
+            continue
+        pa = paths[0]
+        if pa.outcome != "return":
+            raises = [e for e in pa.events if e.kind == "raise"]
+            last = raises[-1] if raises else None
+            where = f"{last.fn.short}:{last.line}" if last is not None and last.fn is not None else "?"
+            ctx.violated("C12.POISON", inst, f"<oneNumber name='A'>{text[:12]}{'...' if len(text) > 12 else ''}</oneNumber> ({label}, well-formed number text): handling {res.get('stage')} raises {show(pa.value)[:50] if pa.value is not None else ''} at {where} out of Driver.message_from_client" + (": the value was stored although it cannot be rendered, the property can never be defined or updated again and a whole-device getProperties stops at it" if res.get("stage") != "the hostile message" else ""), fi=f, text=f"poison:{label}:{'later' if res.get('stage') != 'the hostile message' else 'now'}", witness=f"newNumberVector DEVA.V2 A={text[:12]}{'...' if len(text) > 12 else ''} ({len(text)} characters); then getProperties device=DEVA")
+            bad = True
+            continue
+        defs = res.get("defs") or []
+        if len(defs) < 5:
+            ctx.violated("C12.POISON", inst, f"after the number {label} the whole-device getProperties is answered with {len(defs)} definitions, the driver has 5 enabled properties", fi=f, text=f"poison-defs:{label}")
+            bad = True
+            continue
+        # what the device now announces for V2.A must be number text a peer can parse
+        shown = None
+        for e in defs:
+            m = e.data["args"][0] if e.data["args"] else None
+            if isinstance(m, Obj) and isinstance(m.attrs.get("name"), Const) and m.attrs["name"].v == "V2":
+                ch = m.attrs.get("children")
+                for x in (ch.items if isinstance(ch, (Lst,)) or hasattr(ch, "items") else []):
+                    if isinstance(x, Obj) and isinstance(x.attrs.get("name"), Const) and x.attrs["name"].v == "A":
+                        shown = x.attrs.get("value")
+        if not (isinstance(shown, Const) and isinstance(shown.v, str) and grammar.match(shown.v.strip())):
+            ctx.violated("C12.POISON", inst, f"after the number {label} the device announces V2.A as {show(shown)[:40] if shown is not None else None}: not number text a peer can parse (every client rejects the whole definition)", fi=f, text=f"poison-text:{label}", witness=f"newNumberVector DEVA.V2 A={text[:12]}... ; getProperties")
+            bad = True
+    if not bad:
+        ctx.holds("C12.POISON", f.short, f"{n} extreme but well-formed number texts: refused or stored renderable; a getProperties afterwards is answered in full with parsable numbers", fi=f)
+
+
 RULES = [
+    ("C12.POISON", rule_poison, "a well-formed number beyond the renderable range does not poison its property for later messages"),
     ("C12.REGEX", rule_regex, "no regex applied to client-supplied values has an unbounded repeat with an ambiguous iteration"),
     ("C12.ESCAPE", rule_escape, "fault catalogue x may-raise primitives: nothing escapes Driver.message_from_client; only validly named elements change"),
     ("C12.INLOOP", rule_inloop, "server transports contain router errors per message, not around the loop"),
